@@ -16,7 +16,7 @@ def limits():
     resource.setrlimit(resource.RLIMIT_AS, (MEM_BYTES, MEM_BYTES))
 
 
-def run_slices(binp, scen, n, c09, nproc, label):
+def run_slices(binp, scen, n, c09, nproc, label, random_family=False):
     """Run corner-replay over [0, n) in nproc parallel slices with a stall watchdog per slice.
     Returns (calls, problems, hangs)."""
     pid = os.getpid()
@@ -32,7 +32,10 @@ def run_slices(binp, scen, n, c09, nproc, label):
         for f in (s["prog"], s["out"]):
             if os.path.exists(f):
                 os.remove(f)
-        args = [binp, "corner-replay", scen, s["out"], s["prog"], "--from", str(s["from"]), "--to", str(s["to"])] + (["--c09"] if c09 else [])
+        if random_family:
+            args = [binp, "random-replay", str(n), s["out"], s["prog"], "--from", str(s["from"]), "--to", str(s["to"])]
+        else:
+            args = [binp, "corner-replay", scen, s["out"], s["prog"], "--from", str(s["from"]), "--to", str(s["to"])] + (["--c09"] if c09 else [])
         s["proc"] = subprocess.Popen(args, stdout=subprocess.PIPE, stderr=subprocess.STDOUT, text=True, preexec_fn=limits)
         s["last"] = time.time()
         s["cur"] = s["from"]
@@ -125,7 +128,8 @@ def run_c05(tier):
     evaluations = 0
     distinct = 0
     samples = []
-    plan = [("adversarial", 1 if tier == "quick" else 2, "FALSE", "release"),
+    plan = [("maniaconv", 2 if tier == "quick" else 3, "FALSE" if tier == "quick" else "TRUE", "release"),
+            ("adversarial", 1 if tier == "quick" else 2, "FALSE", "release"),
             ("realistic", 1 if tier == "quick" else 2, "FALSE" if tier == "quick" else "TRUE", "release"),
             ("realistic", 1 if tier == "quick" else 2, "FALSE", "dev")]
     for domain, maxobjs, rich, profile in plan:
@@ -140,8 +144,25 @@ def run_c05(tier):
         report(res, "C05", scen, problems, hangs, ("panic", "decode_error"))
         samples.append(json.loads(open(scen).readline()))
         os.remove(scen)
+    # second family: structured-random maps and mutated fixtures (seeded), release and dev profile
+    nrand = 3000 if tier == "quick" else 60000
+    for profile in ("release", "dev"):
+        binp = common.build_harness("", profile)
+        t0 = time.time()
+        nr = nrand if profile == "release" else nrand // 3
+        calls, problems, hangs, skipped = run_slices(binp, None, nr, False, 14, "C05_random_%s" % profile, random_family=True)
+        log("random-replay [%s profile]: maps=%d (outside the precondition: %d) calls=%d problems=%d hangs=%d (%.0fs)" % (profile, nr, skipped, calls, len(problems), len(hangs), time.time() - t0))
+        evaluations += calls
+        distinct += nr - skipped
+        # adversarial settings (clock rate 0.01 / 100, overrides +-20) are release-only: drop overflow panics of those in dev
+        if profile == "dev":
+            problems = [p for p in problems if not any(x in p["detail"] for x in ("rate 0.01", "rate 100"))]
+        report(res, "C05", None, problems, [], ("panic",))
+        for h in hangs:
+            res.violation("%s on structured-random map #%d (seed %d, %s profile); regenerate with: verif-harness random-replay %d out.json prog --from %d --to %d" % (
+                h["what"], h["index"], common.seed(), profile, nr, h["index"], h["index"] + 1), {"kind": "corner", "what": h["what"], "random_index": h["index"], "profile": profile})
     res.cov.update({"evaluations": evaluations, "distinct_nontrivial": distinct, "samples": samples,
-                    "rule": "TLC enumerates every map of the corner alphabet (Corners.tla) up to the object bound x global timing/difficulty setups x 4 modes; each distinct enumerated map counts once (all have at least one non-default corner class); evaluations = public calls executed on them (decode, check_suspicion, bpm, convert, difficulty, strains, attributes, gradual iteration, performance with 3-4 states, gradual performance) under the settings of the domain"})
+                    "rule": "TLC enumerates every map of the corner alphabet (Corners.tla) up to the object bound x global timing/difficulty setups x 4 modes; each distinct enumerated map counts once (all have at least one non-default corner class); evaluations = public calls executed on them (decode, check_suspicion, bpm, convert, difficulty, strains, attributes, gradual iteration, performance with 3-4 states, gradual performance) under the settings of the domain; plus a seeded family of structured-random maps and mutated fixture windows (each counted once) converted under every key mod"})
     res.assumptions += [
         "exploration: termination and absence of panics are observed on the enumerated corners, not derived; maps failing check_suspicion() are skipped (precondition)",
         "adversarial domain in release only; realistic domain in release and with overflow checks (dev profile)",
@@ -167,8 +188,30 @@ def run_c09(tier):
         report(res, "C09", scen, problems, hangs, ("class",))
         samples.append(json.loads(open(scen).readlines()[min(n - 1, 50)]))
         os.remove(scen)
+    # performance side: every score-state class consistent with a prefix, on real attributes of every mode
+    pid = os.getpid()
+    cfgp = os.path.join(common.OUT, "MC_PerfStates_%s_%d.cfg" % (tier, pid))
+    with open(cfgp, "w") as f:
+        f.write("CONSTANTS\n  Rich = %s\nINIT Init\nNEXT Next\nINVARIANT Printer\nCHECK_DEADLOCK FALSE\n" % ("FALSE" if tier == "quick" else "TRUE"))
+    r = common.run_tlc("MC_PerfStates", cfgp, workers=8, timeout=3600, name="MC_PerfStates_%s" % tier)
+    res.add_tlc(r)
+    os.remove(cfgp)
+    scen = os.path.join(common.OUT, "perfstates_%s_%d.ndjson" % (tier, pid))
+    nclasses = common.extract_replay(r["log"], scen)
+    os.remove(r["log"])
+    outp = scen + ".res.json"
+    p = common.run_harness(common.build_harness("", "release"), ["perfgrid-replay", scen, outp, "--tier", tier], timeout=7200)
+    log(p.stdout.strip().splitlines()[-1])
+    out = json.load(open(outp))
+    evaluations += out["evaluations"]
+    distinct += nclasses
+    for rec in out["records"][:20]:
+        res.violation("performance %s: %s on %s mods %s lazer %s state %s" % (rec["what"], rec["detail"], rec["map"], rec["mods"], rec["lazer"], rec["state"]),
+                      {"kind": "perfgrid", "record": rec})
+    os.remove(scen)
+    os.remove(outp)
     res.cov.update({"evaluations": evaluations, "distinct_nontrivial": distinct, "samples": samples,
-                    "rule": "TLC enumerates degenerate shapes (empty, single objects of each kind, all spinners, stacked, zero and huge gaps) and realistic corner maps; each distinct map counts once; every f64 of difficulty attributes, strains and performance attributes is projected to {Zero, Pos, Neg, NaN, Inf} under mods x clock rates {0.5,1,2} x AR/CS/OD/HP overrides {none,0,11} x states (zero, full, all-miss) and accuracy-based builders"})
+                    "rule": "TLC enumerates degenerate shapes (empty, single objects of each kind, all spinners, stacked, zero and huge gaps) and realistic corner maps; each distinct map counts once; every f64 of difficulty attributes, strains and performance attributes is projected to {Zero, Pos, Neg, NaN, Inf} under mods x clock rates {0.5,1,2} x AR/CS/OD/HP overrides {none,0,11} x states (zero, full, all-miss) and accuracy-based builders; plus every score-state class of MC_PerfStates (dominant result x ones x third x combo class x tick class x prefix length) on the fixtures and converts under mod combinations and both origins (each class counted once)"})
     res.assumptions += [
         "exploration: finiteness of powf / ln / erf_inv on all realistic geometry is observed on the enumerated corners, not derived by the model",
         "-0.0 counts as zero; accuracies in [0,1] are decided exactly by C12/C13 (ScoreGen.tla)",
